@@ -1498,11 +1498,14 @@ class Parallel(Logger):
 
                 try:
                     islice = list(itertools.islice(iterator, big_batch_size))
-                except Exception as e:
+                except BaseException as e:
                     # Handle the fact that the generator of task raised an
                     # exception. As this part of the code can be executed in
                     # a thread internal to the backend, register a task with
-                    # an error that will be raised in the user's thread.
+                    # an error that will be raised in the user's thread. This
+                    # includes exceptions that do not derive from Exception
+                    # (e.g. sys.exit() called in the generator): they would
+                    # otherwise only end the backend's thread.
                     if isinstance(e.__context__, queue.Empty):
                         # Suppress the cause of the exception if it is
                         # queue.Empty to avoid cluttered traceback. Only do it
